@@ -245,9 +245,13 @@ def run_case(spec):
     res_log = []
     orig = cframework.TrustRegion.get_trust_region_step
 
+    step_log = []
+
     def tap(fw, options):
         res_log.append((fw.resolution, options["radius_final"]))
-        return orig(fw, options)
+        st_ = orig(fw, options)
+        step_log.append((float(np.linalg.norm(st_[0] + st_[1])), fw.resolution))
+        return st_
 
     cframework.TrustRegion.get_trust_region_step = tap
     try:
@@ -272,7 +276,14 @@ def run_case(spec):
         if a != res_log[-1][0]:
             break
         stagnation += 1
+    # length of the final run of trial steps that were too short to be evaluated (<= half the resolution)
+    short = 0
+    for sn, rs in reversed(step_log):
+        if not (0.0 < sn <= 0.5 * rs):
+            break
+        short += 1
     data = dict(family=fam, status=int(r.status), success=bool(r.success), err=err, viol=v, nfev=int(r.nfev),
+                final_unevaluated_short_steps=short,
                 final_iterations_at_constant_resolution=stagnation, n=spec["n"],
                 last_resolution=float(res_log[-1][0]) if res_log else None)
     if err > TOLS[fam]:
@@ -288,35 +299,18 @@ def run_case(spec):
     return out
 
 
-def sig_d16(spec, fail):
-    """D16: the run reaches the neighbourhood of the minimiser, then takes hundreds of noise-level
-    trust-region / geometry steps at one constant resolution until maxfev is exhausted: status 5
-    although the returned point is the minimiser (and feasible)."""
-    d = fail.data
-    return (fail.clause.startswith("C04.status.") and d.get("status") == 5 and d.get("err", 1) <= 1e-6
-            and d.get("viol", 1) <= FEAS_TOL and d.get("final_iterations_at_constant_resolution", 0) >= 200)
-
-
 def sig_short_step_infeasible(spec, fail):
-    """KF-C04-2: linear equalities; the run ends with status 0 at a point within 1e-6 of the
-    minimiser whose equality violation (below 1e-5) exceeds feasibility_tol: the step that would
-    restore feasibility is shorter than half the resolution and is never evaluated."""
+    """KF-C04-2: linear equalities; the centre of the trust region ends within 1e-7 of the minimiser
+    but violates the equalities by a few 1e-8 (above feasibility_tol); the step that would restore
+    feasibility is shorter than half the resolution, so it is never evaluated and the resolution is
+    reduced down to radius_final: status 0, success=False, and the filter returns the evaluated point
+    of least penalised violation (within 2e-4 of the minimiser)."""
     d = fail.data
-    return (fail.clause == "C04.feas.lineq" and d.get("status") == 0 and d.get("err", 1) <= 1e-6
-            and FEAS_TOL < d.get("viol", 1) <= 1e-5)
-
-
-def sig_far_start_creep(spec, fail):
-    """KF-C04-3: start 20-50 away from the ball; the resolution is reduced early, after which the run
-    creeps with steps of the size of the resolution (ratio below low_ratio, geometry step after every
-    trust-region step) at one constant resolution until maxfev: status 5 far from the minimiser."""
-    d = fail.data
-    return (fail.clause == "C04.dist.ball" and d.get("status") == 5 and spec.get("dist", 0) >= 20
-            and d.get("final_iterations_at_constant_resolution", 0) >= 200)
+    return (fail.clause in ("C04.feas.lineq", "C04.dist.lineq", "C04.status.lineq") and d.get("status") == 0
+            and d.get("err", 1) <= 2e-4 and FEAS_TOL < d.get("viol", 1) <= 2e-4
+            and d.get("final_unevaluated_short_steps", 0) >= 3)
 
 
 SIGNATURES = {
-    "status5_at_minimiser_after_200_iterations_at_constant_resolution": sig_d16,
-    "lineq_status0_within_1e-6_of_minimiser_equality_violation_below_1e-5": sig_short_step_infeasible,
-    "ball_far_start_status5_after_200_iterations_at_constant_resolution": sig_far_start_creep,
+    "lineq_status0_short_steps_never_evaluated_equality_violation_above_tol": sig_short_step_infeasible,
 }
